@@ -112,8 +112,12 @@ class NamePool:
             if r.random() < 0.5:
                 n += "_" + r.choice(SNAKE_WORDS)
             if self.digit_fields and r.random() < self.digit_fields:
-                form = r.randrange(4)
-                if form == 0:
+                form = r.randrange(5)
+                if form == 4:
+                    n += r.choice(["1", "2", "32", "64"])  # crc32, value1: lower case with a glued digit is snake_case too
+                    if r.random() < 0.3:
+                        n += "_" + r.choice(SNAKE_WORDS)
+                elif form == 0:
                     n += "_" + r.choice(SNAKE_DIGIT_WORDS)
                     if r.random() < 0.3:
                         n += "_" + r.choice(SNAKE_WORDS)
